@@ -66,10 +66,16 @@ theorem deb_version_strip (i : VInfo) (he : i.epoch.all isDigit = true) (hc : (d
   · have : debVersion true i = i.epoch ++ colon :: debVersion false i := by simp [debVersion, h]
     rw [this]; exact stripEpoch_with _ _ he
 
+/-- with a platform set (nfpm.WithDefaults sets "linux" when none is configured) the file name and the control
+    file state the same architecture, platform prefix included (fix 34d43d4) -/
+theorem deb_name_arch_is_control_arch (i : VInfo) (hp : i.platform ≠ []) : debNameArch i = debControlArch i := by
+  simp [debNameArch, debControlArch, hp]
+
 /-- **deb**: file name = name the control data implies (name, version minus epoch, Architecture) -/
-theorem deb_name_matches (i : VInfo) (he : i.epoch.all isDigit = true) (hc : (debVersion false i).contains colon = false) :
-    debFileName i = expectedFileName .deb i.name (debVersion true i) [] (targetArch Generated.archMap_deb i) := by
-  simp only [debFileName, expectedFileName, deb_version_strip i he hc]
+theorem deb_name_matches (i : VInfo) (he : i.epoch.all isDigit = true) (hc : (debVersion false i).contains colon = false)
+    (hp : i.platform ≠ []) :
+    debFileName i = expectedFileName .deb i.name (debVersion true i) [] (debControlArch i) := by
+  simp only [debFileName, expectedFileName, deb_version_strip i he hc, deb_name_arch_is_control_arch i hp]
 
 theorem ipk_name_matches (i : VInfo) (he : i.epoch.all isDigit = true) (hc : (debVersion false i).contains colon = false) :
     ipkFileName i = expectedFileName .ipk i.name (debVersion true i) [] (targetArch Generated.archMap_ipk i) := by
